@@ -230,6 +230,30 @@ def run_shard(ctx):
                         at = next((j for j, (x, y) in enumerate(zip(sa, sb)) if x != y), min(len(sa), len(sb)))
                         fails.append(({'law': 'equal-trees-print-differently', 'changed': attr},
                                       {'a': sa[max(0, at - 60):at + 60], 'b': sb[max(0, at - 60):at + 60], 'first_difference_at': at, 'length': len(sa)}))
+            # a text-valued field (a raw query, a literal, a stored statement text) whose blanks change: another text, another print
+            def text_slots(T):
+                return [(o, k) for p, o in monitors.walk(T) if hasattr(o, '__dict__') for k, v in vars(o).items()
+                        if isinstance(v, str) and ' ' in v.strip() and
+                        # (fields that hold the USER's text: raw queries, stored statement texts, string literals - not keyword spellings)
+                        (k in ('query', 'query_str', 'raw_query', 'if_query_str', 'sql', 'body') or (k == 'value' and type(o).__name__ == 'Constant'))]
+            slots = text_slots(A)
+            for which in sorted({0, len(slots) - 1} - {-1}):
+                for how in ('doubled', 'line-break'):
+                    M = A.copy()
+                    ms = text_slots(M)
+                    if which >= len(ms):
+                        continue
+                    o, k = ms[which]
+                    v = getattr(o, k)
+                    j = v.strip().index(' ') + (len(v) - len(v.lstrip()))
+                    setattr(o, k, v[:j] + ('  ' if how == 'doubled' else '\n') + v[j + 1:])
+                    if A.to_string() == M.to_string():
+                        continue
+                    acc.count('text_field_variants_compared')
+                    fails += eq_laws(A, M, acc, 'tree-vs-text-field-variant')
+                    if (A == M) is True:
+                        fails.append(({'law': 'equal-trees-print-differently', 'changed': 'blanks-in-text-field:' + type(o).__name__ + '.' + k},
+                                      {'a': A.to_string()[:200], 'b': M.to_string()[:200]}))
             # a constant replaced by its equal-valued twin of another type (1 / 1.0 / TRUE, 0 / 0.0 / FALSE): Python calls them equal,
             # SQL prints them differently
             consts = [o for p, o in monitors.walk(A) if type(o).__name__ == 'Constant' and isinstance(o.value, (int, float)) and o.value in (0, 1)]
